@@ -15,12 +15,13 @@ R == INSTANCE Req
 B == {"B1", "B2", "B3"}
 Forms == {"inline", "where", "impl", "split"}
 FormOk(S, f) == (f = "impl" => S # {}) /\ (f = "split" => Cardinality(S) >= 2)
-FnDecls == { d \in [S : SUBSET B, form : Forms] : FormOk(d.S, d.form) }
-ModDecls == { d \in [S : {{}, {"B1"}, {"B2"}, {"B1", "B2"}, {"B3"}}, form : {"inline", "where", "impl"}] : FormOk(d.S, d.form) }
+\* each function declares its bounds in some form and takes the dependency by reference or by value
+FnDecls == { d \in [S : SUBSET B, form : Forms, byvalue : BOOLEAN] : FormOk(d.S, d.form) }
+ModDecls == { d \in [S : {{}, {"B1"}, {"B2"}, {"B1", "B2"}, {"B3"}}, form : {"inline", "where", "impl"}, byvalue : BOOLEAN] : FormOk(d.S, d.form) }
 Mocks == {"none", "unimock+api", "api-only", "unimock=false+api", "mockall", "mockall=false"}
-Inputs == { i \in [mode : {"fn"}, fns : { <<d>> : d \in FnDecls }, mock : Mocks, byvalue : BOOLEAN, feature : BOOLEAN]
+Inputs == { i \in [mode : {"fn"}, fns : { <<d>> : d \in FnDecls }, mock : Mocks, feature : BOOLEAN]
                   : i.mock = "unimock+api" => i.feature }
-          \cup (IF WithMod THEN { i \in [mode : {"mod"}, fns : { <<d1, d2>> : d1 \in ModDecls, d2 \in ModDecls }, mock : Mocks, byvalue : BOOLEAN, feature : BOOLEAN]
+          \cup (IF WithMod THEN { i \in [mode : {"mod"}, fns : { <<d1, d2>> : d1 \in ModDecls, d2 \in ModDecls }, mock : Mocks, feature : BOOLEAN]
                                   : i.mock = "unimock+api" => i.feature } ELSE {})
 
 MockOpts(m) == CASE m = "none" -> <<>>
@@ -36,7 +37,9 @@ FE(i) == FrontEnd(i.mode, AttrOf(i), "entrait", i.feature)
 Declared(i) == UNION { i.fns[k].S : k \in DOMAIN i.fns }
 \* mock support enabled (C10's notion): unimock on (option or feature) with a mock_api, or mockall on
 MockSupport(i) == LET o == FE(i).opts IN UnimockAttr(i.mode, o) \/ MockallAttr(o)
-L1In(i) == [declared |-> Declared(i), byvalue |-> i.byvalue, mocksupport |-> MockSupport(i)]
+\* a by-value receiver anywhere in the trait
+AnyByValue(i) == \E k \in DOMAIN i.fns : i.fns[k].byvalue
+L1In(i) == [declared |-> Declared(i), byvalue |-> AnyByValue(i), mocksupport |-> MockSupport(i)]
 
 \* ---- probes
 Probes == { [shape |-> sh, sat |-> S, sync |-> sy, send |-> se, name |-> nm] :
@@ -56,7 +59,7 @@ Types == { ProbeTy(pr) : pr \in Probes }
 ImplRule(i) ==
   LET o == FE(i).opts IN
   [ tr |-> "T", self |-> IF Mockable(o) THEN "implT" ELSE "blanket", cty |-> App(""),
-    pb |-> {"Sync", "static"} \cup (IF i.byvalue THEN {"Send"} ELSE {}),
+    pb |-> {"Sync", "static"} \cup (IF AnyByValue(i) THEN {"Send"} ELSE {}),       \* has_any_self_by_value over ALL signatures
     sb |-> UNION { i.fns[k].S : k \in DOMAIN i.fns } ]            \* push_impl_t_bounds: every fn's bounds
 PredAvail(i, pr) == Avail(BaseFacts, {ImplRule(i)}, Types, ProbeTy(pr), "T")
 
@@ -74,9 +77,9 @@ StepwiseIsFix == pc = "done" => facts = Fix(BaseFacts, {ImplRule(i)}, Types)
 Refines == pc = "done" => (Class(i) # "" \/ \A pr \in Probes : (<<ProbeTy(pr), "T">> \in facts) = R!C04_AvailReq(L1In(i), pr))
 
 ProbeRec(i0, pr) == [name |-> pr.name, shape |-> pr.shape, expect |-> R!C04_AvailReq(L1In(i0), pr), pred |-> PredAvail(i0, pr)]
-CaseRec(i0) == [ in |-> [mode |-> i0.mode, fns |-> [k \in DOMAIN i0.fns |-> [S |-> SetToSeq(i0.fns[k].S), form |-> i0.fns[k].form]],
-                         mock |-> i0.mock, byvalue |-> i0.byvalue, feature |-> i0.feature],
-                 attr |-> AttrText(i0.mode, AttrOf(i0)), l1 |-> [declared |-> SetToSeq(Declared(i0)), byvalue |-> i0.byvalue, mocksupport |-> MockSupport(i0)],
+CaseRec(i0) == [ in |-> [mode |-> i0.mode, fns |-> [k \in DOMAIN i0.fns |-> [S |-> SetToSeq(i0.fns[k].S), form |-> i0.fns[k].form, byvalue |-> i0.fns[k].byvalue]],
+                         mock |-> i0.mock, feature |-> i0.feature],
+                 attr |-> AttrText(i0.mode, AttrOf(i0)), l1 |-> [declared |-> SetToSeq(Declared(i0)), byvalue |-> AnyByValue(i0), mocksupport |-> MockSupport(i0)],
                  cls |-> Class(i0), probes |-> SetToSeq({ ProbeRec(i0, pr) : pr \in Probes }) ]
 ASSUME DumpCases => ndJsonSerialize(IOEnv.OUT, SetToSeq({ CaseRec(x) : x \in Inputs }))
 ASSUME PrintT(<<"INPUTS", Cardinality(Inputs)>>)
